@@ -711,7 +711,38 @@ func buildIntrinsics() map[string]*Native {
 		})
 	}
 	conc2("math.Pow", math.Pow)
-	conc2("math.Nextafter", math.Nextafter)
+	reg("math.Nextafter", func(ip *Interp, a []Value) Value {
+		x, y := ip.term(a[0]), ip.term(a[1])
+		if x.IsConst() && y.IsConst() {
+			return ConstF64(math.Nextafter(x.F64(), y.F64()))
+		}
+		if !y.IsConst() || !math.IsInf(y.F64(), 0) {
+			return ip.TC.UF("uf_math_Nextafter", SFP64, x, y)
+		}
+		up := y.F64() > 0
+		tc := ip.TC
+		// bits of x: fresh b with x = to_fp(b) (structural equality; x is not NaN in the callers)
+		var b *Term
+		if x.Op == OFFromBits {
+			b = x.A[0]
+		} else {
+			b = ip.W.freshVar(SBV64)
+			ip.W.inputs = append(ip.W.inputs, Input{Kind: "aux", Vars: []*Term{b}})
+			ip.W.addPC(ip.TC.mk(OEq, SBool, 0, 0, "", x, tc.FFromBits(b)))
+		}
+		one := Const(SBV64, 1)
+		pos := tc.Eq(tc.LShr(b, Const(SBV64, 63)), Const(SBV64, 0))
+		isZero := tc.FEq(x, ConstF64(0))
+		var nb *Term
+		if up {
+			// x >= +0: bits+1 ; x < 0: bits-1 ; -0 -> smallest positive
+			nb = tc.Ite(isZero, one, tc.Ite(pos, tc.Add(b, one), tc.Sub(b, one)))
+		} else {
+			nb = tc.Ite(isZero, Const(SBV64, 0x8000000000000001), tc.Ite(pos, tc.Sub(b, one), tc.Add(b, one)))
+		}
+		special := tc.Or(tc.FIsNaN(x), tc.FIsInf(x))
+		return tc.Ite(special, x, tc.FFromBits(nb))
+	})
 	conc2("math.Copysign", math.Copysign)
 	conc2("math.Max", math.Max)
 	conc2("math.Min", math.Min)
@@ -741,6 +772,12 @@ func buildIntrinsics() map[string]*Native {
 		ri := tc.SRem(xi, yi)
 		ax2 := tc.Or(tc.Not(intCase), tc.FEq(r, tc.FFromSBV(ri, SFP64)))
 		ip.W.addPC(ax2)
+		if y.IsConst() && y.F64() == 2 {
+			// exact for |x| < 2^53: x/2, trunc, *2 and the subtraction are all exact
+			big := ConstF64(9007199254740992.0)
+			exact := tc.FSub(x, tc.FMul(ConstF64(2), tc.FRound(tc.FDiv(x, ConstF64(2)), RTZ)))
+			ip.W.addPC(tc.Or(tc.Not(tc.FLt(tc.FAbs(x), big)), tc.FEq(r, exact)))
+		}
 		return r
 	})
 	reg("math.Pow10", func(ip *Interp, a []Value) Value {
